@@ -359,9 +359,10 @@ pub fn do_call(
 		}
 		"start_updater" => {
 			let o = guarded(|| api.start_updater(tok, Duration::from_millis(10)));
-			std::thread::sleep(Duration::from_millis(120));
+			// let the updater thread run a few cycles, stop it, let it finish its last cycle
+			std::thread::sleep(Duration::from_millis(70));
 			let _ = api.stop_updater();
-			std::thread::sleep(Duration::from_millis(120));
+			std::thread::sleep(Duration::from_millis(70));
 			fin(&o, |_| Value::Null)
 		}
 		"stop_updater" => {
